@@ -782,6 +782,7 @@ theorem alts_term (rid0 : Nat) (as : List Alt) : ∀ (idx : Nat) (s : St), InFra
         | none => exact ⟨by simp, hP1.of_eq rfl rfl, by simp [Res.isOk]⟩
         | raises => exact ⟨by simp, hP1.of_eq rfl rfl, by simp [Res.isOk]⟩
         | mayRaise => exact ⟨by simp, hP1.of_eq rfl rfl, fun hnn _ => hadv hnn⟩
+        | gate m => exact ⟨by simp, hP1.of_eq rfl rfl, fun hnn _ => hadv hnn⟩
         | viaItem i =>
           simp only []
           split
